@@ -86,7 +86,7 @@ fn apply_op(s: &mut Stream, tree: &mut T) -> &'static str {
     let is_chance = |n: &T| matches!(n, T::Chance(_, o) if o.len() >= 2);
     let is_term = |n: &T| matches!(n, T::Term(_));
     let is_multi = |n: &T| matches!(n, T::Player(_, _, a) if a.len() >= 2);
-    match s.below(14) {
+    match [0, 1, 2, 2, 3, 4, 5, 6, 7, 8, 8, 9, 9, 9, 10, 10, 11, 12, 13][s.below(19)] {
         0 => {
             if let Some(n) = pick_node(s, tree, &|n| is_chance(n) || is_term(n)) {
                 *n = T::Chance(if s.bool() { Some("k0".into()) } else { None }, vec![]);
@@ -103,26 +103,49 @@ fn apply_op(s: &mut Stream, tree: &mut T) -> &'static str {
             "none"
         }
         2 => {
-            // two chance nodes under one label with different weights or arity
-            let cand = indices(tree, &is_chance);
-            if cand.len() >= 2 {
-                let a = cand[s.below(cand.len())];
-                let b = cand[s.below(cand.len())];
-                if a != b {
-                    let variant = s.below(3);
-                    if let Some(T::Chance(l, _)) = tree.node_mut(a) {
-                        *l = Some("clash".into());
-                    }
-                    if let Some(T::Chance(l, outs)) = tree.node_mut(b) {
-                        *l = Some("clash".into());
-                        match variant {
-                            0 => outs[0].0 *= 1.5,
-                            1 => outs.swap(0, 1),
-                            _ => outs[0].0 *= 1.0 + 1e-9,
-                        }
-                    }
-                    return "shared-chance-label";
+            // a second chance node under the label of an existing one, with other weights / order /
+            // arity (or, as a control, the same ones)
+            let first = match pick_node(s, tree, &is_chance) {
+                Some(T::Chance(l, outs)) => {
+                    *l = Some("clash".into());
+                    outs.iter().map(|(w, _)| *w).collect::<Vec<f64>>()
                 }
+                _ => return "none",
+            };
+            let total = tree.num_nodes();
+            let at = s.below(total);
+            let variant = s.below(6);
+            if let Some(target) = tree.node_mut(at) {
+                let mut w = first.clone();
+                let label = match variant {
+                    0 => {
+                        w[0] *= 1.5;
+                        "shared-chance-label-other-weights"
+                    }
+                    1 => {
+                        w.reverse();
+                        "shared-chance-label-reversed"
+                    }
+                    2 => {
+                        w.push(1.0);
+                        "shared-chance-label-other-arity"
+                    }
+                    3 => {
+                        w[0] *= 1.0 + 1e-9;
+                        "shared-chance-label-1e-9-off"
+                    }
+                    4 => {
+                        w.iter_mut().for_each(|x| *x *= 4.0);
+                        "shared-chance-label-rescaled-control"
+                    }
+                    _ => "shared-chance-label-same-control",
+                };
+                let old = std::mem::replace(target, T::Term(0.0));
+                let mut outs: Vec<(f64, T)> = w.into_iter().map(|x| (x, T::Term(0.125))).collect();
+                let slot = s.below(outs.len());
+                outs[slot].1 = old;
+                *target = T::Chance(Some("clash".into()), outs);
+                return label;
             }
             "none"
         }
@@ -185,66 +208,51 @@ fn apply_op(s: &mut Stream, tree: &mut T) -> &'static str {
             "none"
         }
         9 => {
-            // the player forgets which action he took
-            let cand = indices(tree, &is_multi);
-            for _ in 0..4 {
-                if cand.is_empty() {
-                    break;
-                }
-                let a = cand[s.below(cand.len())];
-                let node = tree.node_mut(a).unwrap();
+            // the player forgets which action he took: two nodes below different actions of one
+            // of his decision nodes are given one infoset
+            if let Some(node) = pick_node(s, tree, &is_multi) {
                 let p = match node {
                     T::Player(p, _, _) => *p,
-                    _ => continue,
+                    _ => unreachable!(),
                 };
-                let kids = node.children();
-                if kids.len() < 2 {
-                    continue;
-                }
-                let first = first_own_multi(kids[0], p, None);
-                if let Some(path0) = first {
-                    let labels: Vec<String> = match follow_ref(kids[0], &path0) {
-                        T::Player(_, _, acts) => acts.iter().map(|(a, _)| a.clone()).collect(),
-                        _ => continue,
+                let veil = s.below(3);
+                let mut kids = node.children_mut();
+                let n = kids.len();
+                let i = s.below(n);
+                let j = (i + 1 + s.below(n - 1)) % n;
+                for k in [i, j] {
+                    let old = std::mem::replace(&mut *kids[k], T::Term(0.0));
+                    let forgot = T::Player(p, "forgot".into(), vec![("l".into(), old), ("r".into(), T::Term(1.0))]);
+                    *kids[k] = match veil {
+                        0 => forgot,
+                        1 => T::Player(1 - p, "veil".into(), vec![("u".into(), forgot), ("d".into(), T::Term(-1.0))]),
+                        _ => T::Chance(None, vec![(1.0, forgot), (2.0, T::Term(0.5))]),
                     };
-                    if let Some(path1) = first_own_multi(kids[1], p, Some(&labels)) {
-                        let mut kids = node.children_mut();
-                        if let T::Player(_, name, _) = follow(kids[0], &path0) {
-                            *name = "forgot".into();
-                        }
-                        if let T::Player(_, name, _) = follow(kids[1], &path1) {
-                            *name = "forgot".into();
-                        }
-                        kids.clear();
-                        return "forgotten-own-action";
-                    }
                 }
+                return "forgotten-own-action";
             }
             "none"
         }
         10 => {
             // absent-mindedness: a descendant carries the ancestor's infoset
-            let cand = indices(tree, &is_multi);
-            for _ in 0..4 {
-                if cand.is_empty() {
-                    break;
-                }
-                let a = cand[s.below(cand.len())];
-                let node = tree.node_mut(a).unwrap();
+            if let Some(node) = pick_node(s, tree, &is_multi) {
                 let (p, name, labels) = match node {
                     T::Player(p, name, acts) => (*p, name.clone(), acts.iter().map(|(a, _)| a.clone()).collect::<Vec<_>>()),
-                    _ => continue,
+                    _ => unreachable!(),
                 };
-                let nk = node.children().len();
-                let k = s.below(nk);
-                if let Some(path) = first_own_multi(node.children()[k], p, Some(&labels)) {
-                    let mut kids = node.children_mut();
-                    if let T::Player(_, n2, _) = follow(kids[k], &path) {
-                        *n2 = name;
-                    }
-                    kids.clear();
-                    return "absent-minded";
-                }
+                let veil = s.below(2);
+                let mut kids = node.children_mut();
+                let k = s.below(kids.len());
+                let old = std::mem::replace(&mut *kids[k], T::Term(0.0));
+                let mut acts: Vec<(String, T)> = labels.iter().map(|l| (l.clone(), T::Term(0.25))).collect();
+                acts[0].1 = old;
+                let again = T::Player(p, name, acts);
+                *kids[k] = if veil == 0 {
+                    again
+                } else {
+                    T::Player(1 - p, "veil".into(), vec![("u".into(), again), ("d".into(), T::Term(-1.0))])
+                };
+                return "absent-minded";
             }
             "none"
         }
@@ -353,9 +361,12 @@ pub fn decode(bytes: &[u8]) -> Case {
             let nops = 1 + s.weighted(&[5, 2]);
             let mut ops = Vec::new();
             for _ in 0..nops {
-                let op = apply_op(&mut s, &mut tree);
-                if op != "none" {
-                    ops.push(op);
+                for _try in 0..6 {
+                    let op = apply_op(&mut s, &mut tree);
+                    if op != "none" {
+                        ops.push(op);
+                        break;
+                    }
                 }
             }
             Case { tree, mode: "operators", ops }
@@ -503,5 +514,6 @@ pub fn prop() -> Prop {
         ],
         post: None,
         watchdog_s: 60,
+        shrink_iters: 3000,
     }
 }
